@@ -83,6 +83,8 @@ var propExtraFiles = map[string][]string{
 	"C11": {"v2/index_gen.go", "v2/selective.go"},                                      // the regenerated index is held against the serialized one; the selective writer serializes the index it built behind its own padding
 	"C13": {"v2/car.go"},                                                               // Inspect relies on the header validation of Header.ReadFrom
 	"C12": {"v2/internal/io/offset_write_seeker.go", "v2/internal/carv1/util/util.go"}, // what a resumed session writes goes through these
+	"C16": {"v2/storage/deferred/deferredcarwriter.go"},                                // the deferred writer is the third writable store: a Put that failed through it must be repeatable
+	"C05": {"cmd/car/get.go"},                                                          // `car get-dag` is the command-line writing session: what it leaves behind is a finalized output of the library
 }
 
 type pitfall struct {
@@ -94,30 +96,36 @@ type pitfall struct {
 }
 
 var pitfallWhy = map[string]string{
-	"break-leaves-switch":       "an unlabelled `break` inside a `switch`/`select` that sits in a loop leaves the switch, not the loop: the iteration goes on where the author meant to stop",
-	"range-operand-reassigned":  "the slice being ranged over is reassigned inside the loop: `range` fixed its length when the loop started, so the index runs past the shortened slice (a panic) or over stale elements",
-	"shadow-never-assigned":     "a variable declared with its zero value is read before anything has been assigned to it, while a variable of the same name is declared with `:=` in an inner scope before that read: the assignment meant for the outer one went to the inner one, and the outer is still zero where it is tested",
-	"shadow-dead-store":         "an assignment to a variable that shadows an outer one of the same name is never read: it was meant for the outer variable, which keeps its old value",
-	"append-to-parameter":       "`append` on a slice parameter writes into the caller's backing array when it has spare capacity: a value the caller appended to the same base slice (another option) is overwritten",
-	"limit-compared-signed":     "an unsigned 64-bit limit is converted to a signed type before it is compared: a limit of 1<<63 or more (\"no limit\") turns negative and every input is refused, or a huge length turns negative and passes",
-	"sentinel-wrapped":          "a sentinel error is formatted into a new error: callers that compare by identity, by type assertion, or (with %v) by errors.Is no longer recognise it",
-	"adapter-constructs-error":  "a Read/Write/Seek method builds a new error: callers of an io adapter compare the error of the wrapped call by identity (err == io.EOF ends a scan cleanly; anything else is a failure)",
-	"struct-compared-whole":     "a struct of the repository is compared as a whole: fields that a failed or partial decode has already filled make the value differ from the zero value although the field that was meant is unset",
-	"pure-result-discarded":     "the result of a call without side effects is discarded: a value-receiver method returns the updated copy, and dropping it drops the update",
-	"deferred-error-dropped":    "the error of a deferred call is dropped: a deferred Flush/Sync/Close of something that was written reports the write that did not happen, after the function's result has been decided",
-	"failure-swallowed":         "on the branch where this call failed a return with a nil error is reachable: the failure is tested and then lost (a shadowed `err`, a `break` to a `return nil`, an outer variable returned in place of the inner one)",
-	"parameter-map-mutated":     "a map parameter is modified: the map is the caller's, and what the caller (or a later iteration) reads from it afterwards has changed",
-	"stored-before-checked":     "a result is stored into longer-lived state before the error that came with it is tested: on failure the state holds a nil pointer in an interface (which compares non-nil) or a half-made value, and later calls take it for a usable one",
-	"shared-struct-copied":      "a struct that holds pointers, maps or slices is copied by value out of shared state: the copy shares the tree, map or backing array with the original, so it is neither a snapshot (later mutations show through) nor independent (its own mutations hit the original)",
-	"pooled-object":             "an object is taken from or returned to a sync.Pool: whatever still refers to it when it goes back (a slice handed to a writer, a buffer a second opener is filling) is overwritten by the next user",
-	"buffered-writer-unflushed": "a bufio.Writer is created here and a return that reports success is reachable without Flush: what is still in the buffer (all of a small output) never reaches the destination, while offsets and index entries already count it",
-	"context-mismatch":          "a select case that fires on one context's Done() returns another context's Err(): when only the first one is cancelled the function stops and returns nil",
-	"flag-presence-for-value":   "cli.Context.IsSet is used where the pinned tree reads the flag's value: `--flag=false` counts as set, and a default that is true counts as unset",
-	"big-endian":                "binary.BigEndian in a repository whose formats (CARv2 header, characteristics, index records and counts) are little-endian throughout: the bytes written or reported are reversed",
-	"error-untested-exit":       "the error a call returned is assigned, and a return that reports success can be reached from the call without that error ever being tested on the way (the test stands at the head of the loop's next round, or behind a branch not taken): the last failure of a sequence is lost",
-	"map-presence-by-value":     "whether a key is in a map is decided from the value looked up (its length, nil-ness or zero-ness) instead of the comma-ok result: a key that is present with an empty value — the block of an empty file, an empty list of offsets — counts as absent",
-	"unverified-scan":           "BlockReader.SkipNext is the scan that does not hash: a caller the pinned tree does not have reads CIDs it never checks against the bytes",
-	"dynamic-type-fast-path":    "a type assertion on a parameter selects a different path by dynamic type: the fast path and the general path must agree on ownership of buffers, on position and on errors, and nothing checks that they do",
+	"break-leaves-switch":          "an unlabelled `break` inside a `switch`/`select` that sits in a loop leaves the switch, not the loop: the iteration goes on where the author meant to stop",
+	"range-operand-reassigned":     "the slice being ranged over is reassigned inside the loop: `range` fixed its length when the loop started, so the index runs past the shortened slice (a panic) or over stale elements",
+	"shadow-never-assigned":        "a variable declared with its zero value is read before anything has been assigned to it, while a variable of the same name is declared with `:=` in an inner scope before that read: the assignment meant for the outer one went to the inner one, and the outer is still zero where it is tested",
+	"shadow-dead-store":            "an assignment to a variable that shadows an outer one of the same name is never read: it was meant for the outer variable, which keeps its old value",
+	"append-to-parameter":          "`append` on a slice parameter writes into the caller's backing array when it has spare capacity: a value the caller appended to the same base slice (another option) is overwritten",
+	"limit-compared-signed":        "an unsigned 64-bit limit is converted to a signed type before it is compared: a limit of 1<<63 or more (\"no limit\") turns negative and every input is refused, or a huge length turns negative and passes",
+	"sentinel-wrapped":             "a sentinel error is formatted into a new error: callers that compare by identity, by type assertion, or (with %v) by errors.Is no longer recognise it",
+	"adapter-constructs-error":     "a Read/Write/Seek method builds a new error: callers of an io adapter compare the error of the wrapped call by identity (err == io.EOF ends a scan cleanly; anything else is a failure)",
+	"struct-compared-whole":        "a struct of the repository is compared as a whole: fields that a failed or partial decode has already filled make the value differ from the zero value although the field that was meant is unset",
+	"pure-result-discarded":        "the result of a call without side effects is discarded: a value-receiver method returns the updated copy, and dropping it drops the update",
+	"deferred-error-dropped":       "the error of a deferred call is dropped: a deferred Flush/Sync/Close of something that was written reports the write that did not happen, after the function's result has been decided",
+	"failure-swallowed":            "on the branch where this call failed a return with a nil error is reachable: the failure is tested and then lost (a shadowed `err`, a `break` to a `return nil`, an outer variable returned in place of the inner one)",
+	"parameter-map-mutated":        "a map parameter is modified: the map is the caller's, and what the caller (or a later iteration) reads from it afterwards has changed",
+	"stored-before-checked":        "a result is stored into longer-lived state before the error that came with it is tested: on failure the state holds a nil pointer in an interface (which compares non-nil) or a half-made value, and later calls take it for a usable one",
+	"shared-struct-copied":         "a struct that holds pointers, maps or slices is copied by value out of shared state: the copy shares the tree, map or backing array with the original, so it is neither a snapshot (later mutations show through) nor independent (its own mutations hit the original)",
+	"pooled-object":                "an object is taken from or returned to a sync.Pool: whatever still refers to it when it goes back (a slice handed to a writer, a buffer a second opener is filling) is overwritten by the next user",
+	"buffered-writer-unflushed":    "a bufio.Writer is created here and a return that reports success is reachable without Flush: what is still in the buffer (all of a small output) never reaches the destination, while offsets and index entries already count it",
+	"context-mismatch":             "a select case that fires on one context's Done() returns another context's Err(): when only the first one is cancelled the function stops and returns nil",
+	"flag-presence-for-value":      "cli.Context.IsSet is used where the pinned tree reads the flag's value: `--flag=false` counts as set, and a default that is true counts as unset",
+	"big-endian":                   "binary.BigEndian in a repository whose formats (CARv2 header, characteristics, index records and counts) are little-endian throughout: the bytes written or reported are reversed",
+	"error-untested-exit":          "the error a call returned is assigned, and a return that reports success can be reached from the call without that error ever being tested on the way (the test stands at the head of the loop's next round, or behind a branch not taken): the last failure of a sequence is lost",
+	"once-consumed-by-failure":     "the action guarded by a sync.Once can fail (it assigns an error of the enclosing function), and a Once is used up by the first call whatever its outcome: after a failed attempt every further call skips the action and reports success",
+	"factory-closure-shared-state": "a function returns a closure that changes a local variable of the function that made it: every call of the closure — every writer it opens, from every goroutine — works on that one variable, which nothing locks",
+	"internal-slice-returned":      "an exported method returns a slice or map kept in a field of its receiver, not a copy and not a freshly decoded value: the caller and the object now share one backing array — whatever the caller does to the result, or did to the slice the field was set from, changes what the next call answers",
+	"short-read-tolerated":         "the number of bytes a Read or ReadAt delivered is dropped while io.EOF is treated differently from its other errors: both may deliver fewer bytes than asked together with io.EOF, and whoever lets that io.EOF pass must look at the count — or the rest of the buffer, still zero, goes out as data",
+	"bit-position-as-mask":         "a constant that numbers a bit (it is a shift count wherever else it is used) stands where a mask belongs: `x &^ pos` clears the low bits that spell the number, not bit number pos, and the test that follows accepts or refuses by the wrong bits",
+	"process-state-changed":        "a library function changes a property of the whole process — the working directory, an environment variable, the umask — to serve one call: every relative path another goroutine or a later call resolves (an output directory given relatively, the next archive to open) now resolves somewhere else, and the change outlives the call",
+	"map-presence-by-value":        "whether a key is in a map is decided from the value looked up (its length, nil-ness or zero-ness) instead of the comma-ok result: a key that is present with an empty value — the block of an empty file, an empty list of offsets — counts as absent",
+	"unverified-scan":              "BlockReader.SkipNext is the scan that does not hash: a caller the pinned tree does not have reads CIDs it never checks against the bytes",
+	"dynamic-type-fast-path":       "a type assertion on a parameter selects a different path by dynamic type: the fast path and the general path must agree on ownership of buffers, on position and on errors, and nothing checks that they do",
 }
 
 // ---- collection --------------------------------------------------------------------------------
@@ -145,6 +153,7 @@ func (c *Ctx) pitfalls() []pitfall {
 
 func astPitfalls(c *Ctx) []pitfall {
 	var out []pitfall
+	bitPos := bitPositionConsts(c)
 	var paths []string
 	for p := range c.Pkgs {
 		paths = append(paths, p)
@@ -173,10 +182,121 @@ func astPitfalls(c *Ctx) []pitfall {
 				breaksInSwitch(fd.Body, add)
 				rangeReassigned(fd.Body, info, add)
 				shadowPitfalls(fd, info, c.Fset, add)
+				bitPositionAsMask(fd.Body, info, bitPos, add)
 			}
 		}
 	}
 	return out
+}
+
+// bitPositionConsts: the constants of the repository that number a bit — used as a shift count
+// (`1 << fullyIndexedCharPos`), or handed to a parameter that is (`setBit(c.Hi, fullyIndexedCharPos)`).
+func bitPositionConsts(c *Ctx) map[*types.Const]bool {
+	out := map[*types.Const]bool{}
+	shiftParams := map[*types.Var]bool{}
+	constOf := func(info *types.Info, e ast.Expr) *types.Const {
+		switch x := ast.Unparen(e).(type) {
+		case *ast.Ident:
+			k, _ := info.Uses[x].(*types.Const)
+			return k
+		case *ast.SelectorExpr:
+			k, _ := info.Uses[x.Sel].(*types.Const)
+			return k
+		}
+		return nil
+	}
+	each := func(f func(info *types.Info, n ast.Node)) {
+		for _, p := range c.Pkgs {
+			for _, file := range p.Syntax {
+				ast.Inspect(file, func(n ast.Node) bool {
+					if n != nil {
+						f(p.TypesInfo, n)
+					}
+					return true
+				})
+			}
+		}
+	}
+	each(func(info *types.Info, n ast.Node) {
+		if b, ok := n.(*ast.BinaryExpr); ok && (b.Op == token.SHL || b.Op == token.SHR) {
+			if k := constOf(info, b.Y); k != nil && k.Pkg() != nil && isRepoPkg(k.Pkg().Path()) {
+				out[k] = true
+			}
+			if id, ok := ast.Unparen(b.Y).(*ast.Ident); ok {
+				if v, ok := info.Uses[id].(*types.Var); ok && !v.IsField() {
+					shiftParams[v] = true
+				}
+			}
+		}
+	})
+	each(func(info *types.Info, n ast.Node) {
+		call, ok := n.(*ast.CallExpr)
+		if !ok {
+			return
+		}
+		var fn *types.Func
+		switch x := ast.Unparen(call.Fun).(type) {
+		case *ast.Ident:
+			fn, _ = info.Uses[x].(*types.Func)
+		case *ast.SelectorExpr:
+			fn, _ = info.Uses[x.Sel].(*types.Func)
+		}
+		if fn == nil {
+			return
+		}
+		sig, _ := fn.Type().(*types.Signature)
+		if sig == nil {
+			return
+		}
+		for i, a := range call.Args {
+			if i < sig.Params().Len() && shiftParams[sig.Params().At(i)] {
+				if k := constOf(info, a); k != nil && k.Pkg() != nil && isRepoPkg(k.Pkg().Path()) {
+					out[k] = true
+				}
+			}
+		}
+	})
+	return out
+}
+
+// bitPositionAsMask: a constant that numbers a bit stands as an operand of &, |, ^ or &^.
+func bitPositionAsMask(body *ast.BlockStmt, info *types.Info, bitPos map[*types.Const]bool, add func(string, token.Pos, string)) {
+	if len(bitPos) == 0 {
+		return
+	}
+	check := func(e ast.Expr, pos token.Pos, op string) {
+		var id *ast.Ident
+		switch x := ast.Unparen(e).(type) {
+		case *ast.Ident:
+			id = x
+		case *ast.SelectorExpr:
+			id = x.Sel
+		}
+		if id == nil {
+			return
+		}
+		if k, ok := info.Uses[id].(*types.Const); ok && bitPos[k] {
+			add("bit-position-as-mask", pos, k.Name()+" (a bit number: it is a shift count elsewhere) is an operand of "+op)
+		}
+	}
+	ast.Inspect(body, func(n ast.Node) bool {
+		switch x := n.(type) {
+		case *ast.BinaryExpr:
+			switch x.Op {
+			case token.AND, token.OR, token.XOR, token.AND_NOT:
+				check(x.X, x.Pos(), x.Op.String())
+				check(x.Y, x.Pos(), x.Op.String())
+			}
+		case *ast.AssignStmt:
+			switch x.Tok {
+			case token.AND_ASSIGN, token.OR_ASSIGN, token.XOR_ASSIGN, token.AND_NOT_ASSIGN:
+				for _, r := range x.Rhs {
+					check(r, x.Pos(), x.Tok.String())
+				}
+			}
+		}
+		return true
+	})
 }
 
 // breaksInSwitch: unlabelled break whose target is a switch/select nested in a loop of the same function.
@@ -560,6 +680,26 @@ func ssaPitfalls(c *Ctx) []pitfall {
 						}
 						addS("flag-presence-for-value", name, x.Pos(), "IsSet("+name+")")
 					}
+					if f != nil && f.Pkg() != nil && (f.Pkg().Path() == "os" || f.Pkg().Path() == "syscall") {
+						switch f.Name() {
+						case "Chdir", "Fchdir", "Setenv", "Unsetenv", "Clearenv", "Umask", "Chroot":
+							addS("process-state-changed", f.Pkg().Path()+"."+f.Name(), x.Pos(), f.Pkg().Path()+"."+f.Name())
+						}
+					}
+					if name := readLikeName(cc); name != "" {
+						if cnt := extractOf(x, 0); cnt == nil || cnt.Referrers() == nil || len(*cnt.Referrers()) == 0 {
+							if e := extractOf(x, 1); e != nil && comparedWithEOF(e) {
+								addS("short-read-tolerated", name, x.Pos(), "the count of "+name+" is dropped and io.EOF is told apart from its other errors")
+							}
+						}
+					}
+					if funcIs(f, "sync", "Once", "Do") && len(cc.Args) == 2 {
+						if mc, ok := cc.Args[1].(*ssa.MakeClosure); ok {
+							if lit, ok := mc.Fn.(*ssa.Function); ok && storesCapturedError(lit) {
+								add("once-consumed-by-failure", x.Pos(), "the function handed to Once.Do assigns an error variable of the enclosing function")
+							}
+						}
+					}
 					if funcIs(f, modV2, "BlockReader", "SkipNext") {
 						add("unverified-scan", x.Pos(), "BlockReader.SkipNext")
 					}
@@ -606,10 +746,60 @@ func ssaPitfalls(c *Ctx) []pitfall {
 							}
 						}
 					}
+				case *ssa.MakeClosure:
+					if lit, ok := x.Fn.(*ssa.Function); ok && g.Parent() == nil && closureReturned(x) {
+						for i, b := range x.Bindings {
+							al, ok := b.(*ssa.Alloc)
+							if !ok || i >= len(lit.FreeVars) || holdsOnlyParameter(al) {
+								continue
+							}
+							if pos := mutatesFreeVar(lit, lit.FreeVars[i]); pos != token.NoPos {
+								addS("factory-closure-shared-state", lit.FreeVars[i].Name(), lit.Pos(), "the returned closure changes "+lit.FreeVars[i].Name()+", a local of the function that made it, at "+c.Pos(pos))
+							}
+						}
+					}
 				case *ssa.Defer:
 					sig := x.Common().Signature()
 					if sig != nil && sig.Results().Len() > 0 && types.Identical(sig.Results().At(sig.Results().Len()-1).Type(), errT) {
 						addS("deferred-error-dropped", calleeName(c, x.Common()), x.Pos(), "defer "+calleeName(c, x.Common()))
+					}
+				case *ssa.Return:
+					if g.Parent() == nil && g.Signature.Recv() != nil && len(g.Params) > 0 && token.IsExported(g.Name()) {
+						var cands []ssa.Value
+						for _, res := range x.Results {
+							cands = append(cands, res)
+							// a function with a defer keeps its results in cells until the deferred calls have run
+							if l, ok := res.(*ssa.UnOp); ok && l.Op == token.MUL {
+								if al, ok := l.X.(*ssa.Alloc); ok && al.Referrers() != nil {
+									for _, ref := range *al.Referrers() {
+										if st, ok := ref.(*ssa.Store); ok && st.Addr == ssa.Value(al) {
+											cands = append(cands, st.Val)
+										}
+									}
+								}
+							}
+						}
+						for _, res := range cands {
+							l, ok := res.(*ssa.UnOp)
+							if !ok || l.Op != token.MUL {
+								continue
+							}
+							fa, ok := l.X.(*ssa.FieldAddr)
+							if !ok {
+								continue
+							}
+							switch l.Type().Underlying().(type) {
+							case *types.Slice, *types.Map:
+							default:
+								continue
+							}
+							if addrRoot(fa.X) != ssa.Value(g.Params[0]) {
+								continue
+							}
+							if fv := fieldVar(fa.X.Type(), fa.Field); fv != nil {
+								addS("internal-slice-returned", fv.Name(), x.Pos(), "the "+fv.Name()+" field of the receiver is returned as it is")
+							}
+						}
 					}
 				case *ssa.MapUpdate:
 					if p := rootsAtParam(x.Map, 0); p != nil && !scratchMapParam(c, p) {
@@ -1621,4 +1811,206 @@ func liveBlocks(g *ssa.Function) map[*ssa.BasicBlock]bool {
 	m := reach(g, nil, nil)
 	liveCache[g] = m
 	return m
+}
+
+// storesCapturedError: the function literal (or one nested in it) stores to a captured variable of type error.
+func storesCapturedError(lit *ssa.Function) bool {
+	found := false
+	for _, g := range withAnon(lit) {
+		eachInstr(g, func(in ssa.Instruction) {
+			st, ok := in.(*ssa.Store)
+			if !ok {
+				return
+			}
+			fv, ok := st.Addr.(*ssa.FreeVar)
+			if !ok {
+				return
+			}
+			if p, ok := fv.Type().Underlying().(*types.Pointer); ok && types.Identical(p.Elem(), types.Universe.Lookup("error").Type()) {
+				found = true
+			}
+		})
+	}
+	return found
+}
+
+// closureReturned: the closure value is an operand of a return of the function that makes it
+// (directly, or converted to a named function type or an interface first).
+func closureReturned(mc *ssa.MakeClosure) bool {
+	seen := map[ssa.Value]bool{}
+	var walk func(v ssa.Value) bool
+	walk = func(v ssa.Value) bool {
+		if seen[v] || v.Referrers() == nil {
+			return false
+		}
+		seen[v] = true
+		for _, ref := range *v.Referrers() {
+			switch r := ref.(type) {
+			case *ssa.Return:
+				return true
+			case *ssa.ChangeType:
+				if walk(r) {
+					return true
+				}
+			case *ssa.MakeInterface:
+				if walk(r) {
+					return true
+				}
+			}
+		}
+		return false
+	}
+	return walk(mc)
+}
+
+// holdsOnlyParameter: the cell exists because a parameter is captured — its only store is the parameter.
+func holdsOnlyParameter(al *ssa.Alloc) bool {
+	if al.Referrers() == nil {
+		return false
+	}
+	n := 0
+	for _, ref := range *al.Referrers() {
+		if st, ok := ref.(*ssa.Store); ok && st.Addr == ssa.Value(al) {
+			if _, isP := st.Val.(*ssa.Parameter); !isP {
+				return false
+			}
+			n++
+		}
+	}
+	return n == 1
+}
+
+// mutatesFreeVar: where the literal (or a literal nested in it that captures the same cell) stores to the
+// captured variable, to a part of it, or calls a pointer-receiver method on it.
+func mutatesFreeVar(lit *ssa.Function, fv *ssa.FreeVar) token.Pos {
+	pos := token.NoPos
+	eachInstr(lit, func(in ssa.Instruction) {
+		if pos != token.NoPos {
+			return
+		}
+		switch x := in.(type) {
+		case *ssa.Store:
+			if addrRootNoLoad(x.Addr) == ssa.Value(fv) {
+				pos = x.Pos()
+			}
+		case *ssa.MapUpdate:
+			if l, ok := x.Map.(*ssa.UnOp); ok && l.Op == token.MUL && addrRootNoLoad(l.X) == ssa.Value(fv) {
+				pos = x.Pos()
+			}
+		case ssa.CallInstruction:
+			cc := x.Common()
+			if cc.IsInvoke() || len(cc.Args) == 0 {
+				return
+			}
+			f := calleeFunc(cc)
+			if f == nil {
+				return
+			}
+			sig, _ := f.Type().(*types.Signature)
+			if sig == nil || sig.Recv() == nil {
+				return
+			}
+			if _, ptr := sig.Recv().Type().(*types.Pointer); ptr && addrRootNoLoad(cc.Args[0]) == ssa.Value(fv) {
+				if n := namedOf(sig.Recv().Type()); n != nil && n.Obj().Pkg() != nil && n.Obj().Pkg().Path() == "sync" {
+					return // a lock, a wait group: made to be shared
+				}
+				pos = x.Pos()
+			}
+		case *ssa.MakeClosure:
+			if inner, ok := x.Fn.(*ssa.Function); ok {
+				for i, b := range x.Bindings {
+					if b == ssa.Value(fv) && i < len(inner.FreeVars) {
+						if p := mutatesFreeVar(inner, inner.FreeVars[i]); p != token.NoPos {
+							pos = p
+						}
+					}
+				}
+			}
+		}
+	})
+	return pos
+}
+
+// addrRootNoLoad follows field and element addressing (not loads) back to the cell addressed.
+func addrRootNoLoad(v ssa.Value) ssa.Value {
+	for i := 0; i < 16; i++ {
+		switch x := v.(type) {
+		case *ssa.FieldAddr:
+			v = x.X
+		case *ssa.IndexAddr:
+			v = x.X
+		default:
+			return v
+		}
+	}
+	return v
+}
+
+// readLikeName: the call is a Read or ReadAt in the sense of io.Reader / io.ReaderAt (by shape:
+// first parameter []byte, results (int, error)).
+func readLikeName(cc *ssa.CallCommon) string {
+	name := ""
+	var sig *types.Signature
+	if cc.IsInvoke() {
+		name = cc.Method.Name()
+		sig, _ = cc.Method.Type().(*types.Signature)
+	} else if f := calleeFunc(cc); f != nil {
+		name = f.Name()
+		sig, _ = f.Type().(*types.Signature)
+		if sig != nil && sig.Recv() == nil {
+			return ""
+		}
+	}
+	if (name != "Read" && name != "ReadAt") || sig == nil || sig.Params().Len() == 0 || sig.Results().Len() != 2 {
+		return ""
+	}
+	sl, ok := sig.Params().At(0).Type().Underlying().(*types.Slice)
+	if !ok || !types.Identical(sl.Elem(), types.Typ[types.Byte]) {
+		return ""
+	}
+	if b, ok := sig.Results().At(0).Type().Underlying().(*types.Basic); !ok || b.Kind() != types.Int {
+		return ""
+	}
+	return name
+}
+
+// comparedWithEOF: the error value (or the variable it is kept in) is compared with io.EOF or
+// handed to errors.Is with it.
+func comparedWithEOF(e ssa.Value) bool {
+	isEOF := func(v ssa.Value) bool { return sentinelName(v) == "io.EOF" }
+	seen := map[ssa.Value]bool{}
+	var walk func(v ssa.Value, depth int) bool
+	walk = func(v ssa.Value, depth int) bool {
+		if v == nil || seen[v] || depth > 4 || v.Referrers() == nil {
+			return false
+		}
+		seen[v] = true
+		for _, ref := range *v.Referrers() {
+			switch r := ref.(type) {
+			case *ssa.BinOp:
+				if (r.Op == token.EQL || r.Op == token.NEQ) && (isEOF(r.X) || isEOF(r.Y)) {
+					return true
+				}
+			case *ssa.Call:
+				if f := calleeFunc(r.Common()); funcIs(f, "errors", "", "Is") && len(r.Common().Args) == 2 && isEOF(r.Common().Args[1]) {
+					return true
+				}
+			case *ssa.Phi:
+				if walk(r, depth+1) {
+					return true
+				}
+			case *ssa.Store:
+				// kept in a cell: the loads of that cell
+				if al, ok := r.Addr.(*ssa.Alloc); ok && r.Val == v && al.Referrers() != nil {
+					for _, ld := range *al.Referrers() {
+						if u, ok := ld.(*ssa.UnOp); ok && u.Op == token.MUL && walk(u, depth+1) {
+							return true
+						}
+					}
+				}
+			}
+		}
+		return false
+	}
+	return walk(e, 0)
 }
